@@ -164,31 +164,69 @@ def main():
     out = []
     for case in payload['cases']:
         reset(case['init'])
-        profs = []                      # kernprof's profiler objects, in order of appearance
+        profs = []                      # (object, label) of the profiler objects met, in order of appearance
+        counters = dict(own=0)
 
-        def label(obj, run_index):
+        def label(obj, run_number):
+            """run_number: index of the kernprof run that just ended, None after an ordinary-use step"""
             if obj is None:
                 return None
-            for i, (o, idx) in enumerate(profs):
+            for o, lab in profs:
                 if o is obj:
-                    return ['ext', idx]
-            if type(obj).__name__ in ('LineProfiler', 'ContextualProfile') and all(idx != run_index for _, idx in profs):
-                profs.append((obj, run_index))
-                return ['ext', run_index]
+                    return lab
+            if type(obj).__name__ in ('LineProfiler', 'ContextualProfile'):
+                if run_number is None:
+                    counters['own'] += 1
+                    lab = ['own', counters['own']]       # created by line_profiler.profile.enable() itself
+                elif all(l != ['ext', run_number] for _, l in profs):
+                    lab = ['ext', run_number]            # kernprof's profiler of that run
+                else:
+                    return ['other', type(obj).__name__]
+                profs.append((obj, lab))
+                return lab
             return ['other', type(obj).__name__]
 
-        def observe(prev_argv, prev_path, run_index, raised):
+        def observe(prev_argv, prev_path, run_number, raised):
             hs = helper_threads()
             return dict(raised=raised,
                         argv=[canon(a) for a in sys.argv], argv_same=sys.argv is prev_argv, argv_cap=sys.argv is A0,
                         path=[canon(a) for a in sys.path], path_same=sys.path is prev_path,
-                        enabled=gp.enabled, profile=label(gp._profile, run_index),
-                        builtin=label(builtins.__dict__.get('profile'), run_index),
+                        enabled=gp.enabled, profile=label(gp._profile, run_number),
+                        builtin=label(builtins.__dict__.get('profile'), run_number),
                         threads=len(hs), thread_kinds=sorted({type(t).__name__ for t in hs}),
                         tracing=bool(sys.gettrace() is not None or sys.getprofile() is not None or tool_set()))
-        before = observe(sys.argv, sys.path, -1, None)
+
+        def ordinary_use(op):
+            """-> (answer code, error text): 0 returned its argument / nothing to answer, 1 wrapped, 2 TypeError, 3 other"""
+            so = io.StringIO()
+            with contextlib.redirect_stdout(so):
+                try:
+                    if op == 'enable':
+                        gp.enable()
+                        return 0, None
+                    if op == 'disable':
+                        gp.disable()
+                        return 0, None
+
+                    def f(x):
+                        return x + 1
+                    g = gp(f)
+                    ok = g(1) == 2
+                    return ((0 if g is f else 1) if ok else 3), None
+                except TypeError as e:
+                    return 2, 'TypeError: %s' % e
+                except Exception as e:  # noqa
+                    return 3, '%s: %s' % (type(e).__name__, e)
+        before = observe(sys.argv, sys.path, None, None)
         seen = []
         for j, run in enumerate(case['runs']):
+            pre = []
+            for op in run.get('pre_use', []):
+                pa, pp = sys.argv, sys.path
+                code, err = ordinary_use(op)
+                ob = observe(pa, pp, None, None)
+                ob['code'], ob['err'] = code, err
+                pre.append(ob)
             prev_argv, prev_path = sys.argv, sys.path
             so, se = io.StringIO(), io.StringIO()
             raised = None
@@ -199,23 +237,14 @@ def main():
                     raised = type(e).__name__
             ob = observe(prev_argv, prev_path, j, raised)
             ob['stderr'] = se.getvalue()[-300:]
+            ob['pre'] = pre
             seen.append(ob)
         # ordinary use of the importable decorator afterwards
-        so = io.StringIO()
-        with contextlib.redirect_stdout(so):
-            try:
-                def f(x):
-                    return x + 1
-                g = gp(f)
-                ok = g(1) == 2
-                use = (0 if g is f else 1) if ok else 3
-                use_err = None
-            except TypeError as e:
-                use, use_err = 2, 'TypeError: %s' % e
-            except Exception as e:  # noqa
-                use, use_err = 3, '%s: %s' % (type(e).__name__, e)
+        use, use_err = ordinary_use('decorate')
         out.append(dict(before=before, seen=seen, use=use, use_err=use_err))
     reset(dict(profile='undecided', argv=['driver'], argv_rebound=False, path_rebound=False))
+    import atexit
+    atexit.unregister(gp.show)          # hooks registered by the ordinary-use steps: not at the driver's exit
     rt_out = []
     for sched in payload.get('rt', []):
         r = run_rt(kernprof, sched, payload.get('rt_interval', 0.12))
